@@ -82,6 +82,7 @@ type FuncContract struct {
 	Rebound  string // the function (by its own name) this contract was re-bound to, if not the one its key names
 	NotThreadSafe bool // (assumed) the method mutates its receiver without synchronisation: the receiver must be unshared or locked
 	Recover  bool  // must contain a deferred recover (C18 structural)
+	LoopFree bool  // termination argument: the body has no loop (every call returns once its calls and lock acquisitions do)
 	Params   []string // assumed contracts: parameter names
 	Clock    bool     // result is a read of the monotone ghost clock
 	Unroll   map[int]int // loop ordinal -> unrolling bound (with unwinding assertion)
@@ -141,6 +142,12 @@ type ChanInv struct {
 	Body Expr
 }
 
+type frozenDecl struct {
+	Props  []string
+	Global string // "crypto/rand.Reader"
+	Note   string
+}
+
 type Contracts struct {
 	funcs      map[string]*FuncContract // by key (package-qualified short: "service.(*ReplayCache).Add")
 	preds      map[string]*PredDef
@@ -152,6 +159,7 @@ type Contracts struct {
 	files      []string
 	required   map[string][]string // property -> obligation names that must exist
 	inlineExtern []string
+	frozen     []frozenDecl // globals of other packages that no repo code may assign (assumed contracts rest on them)
 	dispatch   map[string]string // interface method -> implementing function key
 	tainted    []string
 	sinks      []string
@@ -376,6 +384,8 @@ func (cs *Contracts) LoadContractFile(path, pkg string, repoStyle bool) error {
 			cur.mayPanic = true
 		case "must-recover":
 			cur.Recover = true
+		case "loop-free":
+			cur.LoopFree = true
 		case "event":
 			if cur != nil {
 				cur.Event = rest
@@ -500,6 +510,13 @@ func (cs *Contracts) LoadContractFile(path, pkg string, repoStyle bool) error {
 			}
 		case "inline-extern":
 			cs.inlineExtern = append(cs.inlineExtern, rest)
+		case "frozen":
+			// frozen[C08] crypto/rand.Reader reason...
+			f := strings.Fields(rest)
+			if len(f) < 1 {
+				return perr(fmt.Errorf("expected: frozen[Cxx] pkgpath.Name reason"))
+			}
+			cs.frozen = append(cs.frozen, frozenDecl{Props: props, Global: f[0], Note: strings.Join(f[1:], " ")})
 		case "clock":
 			cur.Clock = true
 		case "tainted":
